@@ -86,58 +86,46 @@ Proof.
   destruct Hs as [[Hs _]|[Hs _]]; rewrite Hs; reflexivity.
 Qed.
 
-Lemma adjacent_tail c t : adjacent_newlines (c :: t) = false -> adjacent_newlines t = false.
-Proof.
-  destruct t as [|b r]; [reflexivity|]. cbn [adjacent_newlines]. intros H. apply orb_false_iff in H as [_ H]. exact H.
-Qed.
-Lemma adjacent_head t : adjacent_newlines (newline_code :: t) = false -> (next_of t =? newline_code) = false.
-Proof.
-  destruct t as [|b r]; [reflexivity|]. cbn [adjacent_newlines next_of]. intros H. apply orb_false_iff in H as [H _].
-  rewrite Z.eqb_refl in H. exact H.
-Qed.
+(* bytes.partition(b'\x8f')[0] is the specification's "text": everything before the first unused-space byte *)
+Lemma before_8f_text bs : before_8f bs = text_of_field bs.
+Proof. induction bs as [|b r IH]; [reflexivity|]. cbn [before_8f text_of_field]. change filler with 143. rewrite IH. reflexivity. Qed.
 
 Lemma tf_loop_spec dec tele dh : forall bs prev c a run, ctx_rel c a run ->
-  dh = true \/ adjacent_newlines (text_of_field bs) = false ->
-  map piece_of_leaf (tf_loop dec tele prev bs c) = interpret dec tele a run (tokens_from dh prev (text_of_field bs)).
+  map piece_of_leaf (tf_loop dec tele dh prev bs c) = interpret dec tele a run (tokens_from dh prev (text_of_field bs)).
 Proof.
-  induction bs as [|ch rest IH]; intros prev c a run Hrel Hdh.
+  induction bs as [|ch rest IH]; intros prev c a run Hrel.
   - cbn [tf_loop text_of_field]. apply (end_span_rel dec) in Hrel as (H & _). exact H.
   - cbn [tf_loop text_of_field]. unfold is_unused_space_code. change 143 with filler.
     destruct (ch =? filler) eqn:Efill.
     { apply (end_span_rel dec) in Hrel as (H & _). exact H. }
-    assert (Hcut : text_of_field (ch :: rest) = ch :: text_of_field rest) by (cbn [text_of_field]; rewrite Efill; reflexivity).
-    rewrite Hcut in Hdh.
-    assert (Hdh' : dh = true \/ adjacent_newlines (text_of_field rest) = false)
-      by (destruct Hdh as [Hdh|Hdh]; [left; exact Hdh | right; exact (adjacent_tail _ _ Hdh)]).
-    assert (Hnn : ch =? newline_code = true -> (dh && (peek rest =? newline_code)) = (peek rest =? newline_code)).
-    { intros Hnl. destruct Hdh as [-> | Hdh]; [reflexivity|]. apply Z.eqb_eq in Hnl; subst ch.
-      rewrite <- next_of_text. rewrite (adjacent_head _ Hdh). apply andb_false_r. }
     rewrite tokens_from_cons, next_of_text.
     change is_printable_code with printable. change is_character_code with graphic. change is_control_code with attribute_code.
     unfold token_at.
     assert (Hng : printable ch = true -> graphic ch = true) by (unfold printable; intros H; apply andb_true_iff in H; tauto).
     destruct (printable ch) eqn:Epr.
-    { rewrite (Hng eq_refl). cbn [orb app interpret]. apply IH; [apply append_rel, Hrel | exact Hdh']. }
+    { rewrite (Hng eq_refl). cbn [orb app interpret]. apply IH. apply append_rel, Hrel. }
     destruct (graphic ch) eqn:Egr.
     { (* a space *)
       assert (Hsp : ch =? 32 = true) by (unfold printable in Epr; rewrite Egr in Epr; destruct (ch =? 32); [reflexivity|discriminate]).
       change 0x20 with 32. rewrite Hsp. cbn [orb].
       rewrite (andb_comm (printable (peek rest))).
-      destruct (printable prev && printable (peek rest)); cbn [app interpret]; [apply IH; [apply append_rel, Hrel | exact Hdh'] | apply IH; [exact Hrel | exact Hdh'] ]. }
+      destruct (printable prev && printable (peek rest)); cbn [app interpret]; [apply IH; apply append_rel, Hrel | apply IH; exact Hrel]. }
     assert (Hns : ch =? 0x20 = false).
     { destruct (ch =? 0x20) eqn:E; [|reflexivity]. apply Z.eqb_eq in E; subst ch. discriminate. }
     rewrite Hns. unfold is_newline_code. change 138 with newline_code.
     destruct (ch =? newline_code) eqn:Enl.
-    { change 143 with filler. rewrite (Hnn eq_refl), (orb_comm (peek rest =? filler)).
-      destruct ((peek rest =? newline_code) || (peek rest =? filler)) eqn:Enx.
-      - apply orb_true_iff in Enx.
-        assert (Hc : negb (peek rest =? newline_code) && negb (peek rest =? filler) = false) by (destruct Enx as [-> | ->]; [reflexivity | apply andb_false_r]).
-        rewrite Hc. cbn [app]. apply IH; [exact Hrel | exact Hdh'].
-      - apply orb_false_iff in Enx as [-> ->]. cbn [negb andb app interpret].
+    { change 143 with filler.
+      assert (Hc : negb (dh && (peek rest =? newline_code)) && negb (peek rest =? filler) =
+                   negb ((peek rest =? filler) || dh && (peek rest =? newline_code)))
+        by (destruct (dh && (peek rest =? newline_code)), (peek rest =? filler); reflexivity).
+      rewrite Hc.
+      destruct ((peek rest =? filler) || dh && (peek rest =? newline_code)) eqn:Enx; cbn [negb].
+      - cbn [app]. apply IH. exact Hrel.
+      - cbn [app interpret].
         destruct (end_span dec c) as [out c1] eqn:Ees.
         pose proof (end_span_rel dec c a run Hrel) as (Hout & Hr1 & Hst). rewrite Ees in Hout, Hr1, Hst. cbn [fst snd] in Hout, Hr1, Hst.
         rewrite map_app. cbn [map piece_of_leaf]. rewrite Hout. f_equal. f_equal.
-        apply IH; [|exact Hdh']. destruct tele.
+        apply IH. destruct tele.
         + destruct Hr1 as (_ & Hb1 & Hs1). unfold ctx_rel, reset_styles. cbn. repeat split; auto.
           destruct Hs1 as [[Hs1 _]|[_ Hs1]]; [left; auto | congruence].
         + exact Hr1. }
@@ -153,22 +141,18 @@ Proof.
       { unfold ctx_rel. rewrite Hac, Ha1, Hsp, Hbf. repeat split; auto.
         destruct Hs1 as [[Hs1 _]|[_ Hs1]]; [left; auto | congruence]. }
       destruct (printable prev && printable (peek rest)).
-      - apply IH; [|exact Hdh']. apply (append_rel _ _ [] 32) in Hrel2. exact Hrel2.
-      - apply IH; [exact Hrel2 | exact Hdh']. }
-    cbn [app]. apply IH; [exact Hrel | exact Hdh'].
+      - apply IH. apply (append_rel _ _ [] 32) in Hrel2. exact Hrel2.
+      - apply IH. exact Hrel2. }
+    cbn [app]. apply IH. exact Hrel.
 Qed.
 
-Lemma tf_refines dec tele bs : trigger_blank_row bs = false ->
-  map piece_of_leaf (tf_model dec tele bs) = tf_spec dec tele bs.
+(* the whole text field, for every list of integers: no hypothesis is left (blank-row-dropped was repaired) *)
+Lemma tf_refines dec tele bs : map piece_of_leaf (tf_model dec tele bs) = tf_spec dec tele bs.
 Proof.
-  intros Ht. unfold tf_model, tf_spec. rewrite tokens_from_start. change 143 with filler. apply tf_loop_spec.
-  - unfold ctx_rel, ctx_init. cbn. rewrite initial_attrs. repeat split. left; auto.
-  - unfold trigger_blank_row in Ht. destruct (double_height (text_of_field bs)); [left; reflexivity | right; exact Ht].
+  unfold tf_model, tf_spec. rewrite tokens_from_start, before_8f_text. change 143 with filler.
+  change (has_double_height_char (text_of_field bs)) with (double_height (text_of_field bs)). apply tf_loop_spec.
+  unfold ctx_rel, ctx_init. cbn. rewrite initial_attrs. repeat split. left; auto.
 Qed.
-
-(* the finding is real: a single-height field with an empty row *)
-Lemma tf_blank_row_refuted : exists bs, map piece_of_leaf (tf_model (fun x => x) true bs) <> tf_spec (fun x => x) true bs.
-Proof. exists [65; 138; 138; 66]. vm_compute. discriminate. Qed.
 
 (* with the decoders: the implementation's decoder of the CCT may be replaced by the standard's, provided they
    agree on every run that is decoded.  Runs consist of bytes of the field and spaces. *)
